@@ -560,11 +560,6 @@ def do_step(d: Daemon, label: str) -> dict[str, Any]:
     raise ValueError(label)
 
 
-# replies the daemon owes to a well-formed but unusable request (it must answer, not just survive)
-def is_error_reply(r: dict[str, Any]) -> bool:
-    return "error" in r and "_noreply" not in r
-
-
 # --------------------------------------------------------------------------- one sequence
 
 
@@ -727,7 +722,7 @@ def run_sequence(seq: tuple[str, ...], work: str, memo_dir: str, final: str = "s
                 time.sleep(0.005)
             return "unknown"
 
-        for label, phase in plan:
+        for label, _phase in plan:
             try:
                 reply = step(label)
             except Gone:
